@@ -358,6 +358,7 @@ pub fn run_c06(ctx: &mut Ctx, from: u64, to: u64, tiny: bool) {
         ctx.flag("models_with_more_than_8_classes", n_classes > 8);
         ctx.flag("models_with_empty_char_boundary_model", m.char_ngram_model.is_empty() && m.dict_model.is_empty());
         ctx.flag("models_with_empty_type_boundary_model", m.type_ngram_model.is_empty());
+        ctx.flag("models_whose_tag_models_have_no_category", m.n_tags() == 0);
         let Some(mut pred) = make_predictor(ctx, "C06", &case, true) else { continue };
         let stored = rng.chance(2, 3);
         pred.store_tag_scores(stored);
@@ -377,7 +378,7 @@ pub fn run_c06(ctx: &mut Ctx, from: u64, to: u64, tiny: bool) {
                     *b = boundary_of(l);
                 }
             }
-            let with_cands = stored && m.n_tags() > 0;
+            let with_cands = stored;
             let r = guard(|| {
                 s.fill_tags();
                 observe(&s, with_cands)
@@ -463,7 +464,7 @@ pub fn run_c14(ctx: &mut Ctx, from: u64, to: u64, tiny: bool) {
             );
         }
         ctx.flag("cases_with_trailing_bytes", !trailing.is_empty());
-        let stored = tags && m.n_tags() > 0 && rng.chance(1, 2);
+        let stored = tags && rng.chance(1, 2);
         if tags {
             p.store_tag_scores(stored);
             q.store_tag_scores(stored);
